@@ -13,6 +13,7 @@ import Mathlib.Tactic.SplitIfs
 import Mathlib.Tactic.Tauto
 import PhotVerif.Gen.ForwardTable
 import PhotVerif.Gen.StatsUnits
+import PhotVerif.Gen.SquareSites
 
 namespace PhotVerif.C15
 open PhotVerif PhotVerif.Model.Units
@@ -208,5 +209,24 @@ theorem stat_unit_consistent (p : Nat) (c v : Rat) (hc : c ≠ 0) :
 
 theorem statUnit_none (p : Nat) : statUnit none p = none := rfl
 theorem statUnit_some (u p : Nat) : statUnit (some u) p = some (u, p) := rfl
+
+/-! ### squares of error maps are taken on float values (table regenerated from the source) -/
+
+/-- TABLE OBLIGATION: every place in the photometry / catalogue / centroid / total-error code that squares an error array the caller handed
+    in does so on a float64 copy made in the same function - an integer error map squared in its own dtype wraps around (seeds C02-r8,
+    C07-r11, C19-r11; defect F69 was the same mistake with a product).  The one site not cast locally receives float cut-outs from
+    `_make_aperture_data` (`self._error[slc_lg].astype(float)`). -/
+theorem error_squares_in_float :
+    Gen.SquareSites.uncast = [("segmentation/catalog.py", "_aperture_photometry", "error")] ∧
+    6 ≤ Gen.SquareSites.sites.length := by decide
+
+/-- why the cast matters: in a w-bit unsigned dtype the square of x is x² mod 2^w, which differs from x² as soon as x ≥ 2^(w/2)
+    (uint16: 300² = 90000 is stored as 24464) -/
+theorem wrapped_square_differs (w x : Nat) (h : 2 ^ w ≤ x * x) : (x * x) % 2 ^ w ≠ x * x := by
+  intro he
+  have := Nat.mod_lt (x * x) (Nat.two_pow_pos w)
+  omega
+
+example : (300 * 300) % 2 ^ 16 = 24464 := by decide
 
 end PhotVerif.C15
